@@ -195,6 +195,52 @@ def tlc_behaviours(bdir, tier):
     return execs
 
 
+def api_behaviours(bdir, tier, rng):
+    """direction 1 at the API level: protocol-conforming histories of all codecs generated by TLC from
+    ApiModel (random walks over the Env of the API specification), replayed in the real library"""
+    import json
+    import subprocess
+    num = 120 if tier == "quick" else 2000
+    mdir = os.path.join(bdir, "apigen")
+    os.makedirs(mdir, exist_ok=True)
+    args = ["java", "-XX:+UseParallelGC", "-Xmx2g", "-cp", vlib.TLA_CP, "tlc2.TLC", "-simulate", "num=%d" % num, "-depth", "60",
+            "-workers", "4", "-seed", str(vlib.seed()), "-metadir", mdir, "-config", os.path.join(vlib.SPEC, "ApiModel_gen.cfg"),
+            os.path.join(vlib.SPEC, "ApiModel_MC.tla")]
+    budget = 25 if tier == "quick" else 600
+    try:
+        out = subprocess.run(args, capture_output=True, text=True, timeout=budget, cwd=vlib.SPEC).stdout
+    except subprocess.TimeoutExpired as e:
+        out = e.stdout.decode() if isinstance(e.stdout, bytes) else (e.stdout or "")
+    execs = []
+    for ln in out.splitlines():
+        ln = ln.strip()
+        if not ln.startswith('"ABEH '):
+            continue
+        b = json.loads(json.loads(ln)[5:])
+        pt = b["ops"][0]
+        codec, k, r, m, n1, sd = pt[1:7]
+        p = P(codec, k, r, m=m, N1=n1, seed=sd)
+        s = 0
+        ex = ["create %d %d dec" % (s, codec), p.params_line(s)]
+        cb = rng.choice([None, "buf", "null", "mix"])
+        if cb:
+            ex.append("cb %d %s" % (s, cb))
+        for op in b["ops"][1:]:
+            if op[0] == "recv":
+                ex.append("recv %d %d" % (s, op[1]))
+            elif op[0] == "setavail":
+                ex.append("setavail %d %s" % (s, ",".join(str(x) for x in op[1]) if op[1] else "-"))
+            else:
+                ex.append("finish %d" % s)
+            ex += ["complete %d" % s, "gettab %d" % s]
+        ex.append("expect %d %s %d" % (s, ",".join(str(x) for x in b["avail"]) or "-", 1 if b["complete"] else 0))
+        ex.append("release %d" % s)
+        execs.append(ex)
+    if not execs:
+        raise vlib.Infra("ApiModel generated no behaviour:\n" + out[-1500:])
+    return execs
+
+
 def workload(pid, tier, rng):
     q = tier == "quick"
     execs = []
@@ -300,8 +346,10 @@ MODELS = {
     "C01": [("LdpcIt_MC", "LdpcIt_quick", "LdpcIt_thorough")],
     "C04": [("LdpcIt_MC", "LdpcIt_quick", "LdpcIt_thorough")],
     "C03": [("LdpcMl_MC", "LdpcMl_quick", "LdpcMl_thorough")],
-    "C02": [("RsSession", "RsSession", "RsSession_thorough")],
-    "C10": [("RsSession", "RsSession", "RsSession_thorough"), ("LdpcMl_MC", "LdpcMl_quick", "LdpcMl_thorough")],
+    "C02": [("RsSession", "RsSession", "RsSession_thorough"), ("ApiModel_MC", "ApiModel", "ApiModel")],
+    "C08": [("ApiModel_MC", "ApiModel", "ApiModel")],
+    "C10": [("RsSession", "RsSession", "RsSession_thorough"), ("LdpcMl_MC", "LdpcMl_quick", "LdpcMl_thorough"),
+            ("ApiModel_MC", "ApiModel", "ApiModel")],
     "C11": [("RsSession", "RsSession", "RsSession_thorough")],
 }
 
@@ -353,6 +401,10 @@ def run(pid, tier):
         if pid in ("C04", "C01"):
             gen_execs = tlc_behaviours(bdir, tier)
             ngen = len(gen_execs)
+            execs += gen_execs
+        if pid in ("C01", "C02", "C03", "C08", "C10", "C11"):
+            gen_execs = api_behaviours(bdir, tier, rng)
+            ngen += len(gen_execs)
             execs += gen_execs
         lines = gen.join(execs).split("\n")
         strict = pid in ("C04", "C01", "C03", "C10")
